@@ -220,7 +220,7 @@ func setUser(u *User, info models.AttributeSetter) {
 	info.SetUsername(u.Username)
 	info.SetUserID(u.UserID)
 	for _, c := range u.Custom {
-		info.SetCustomAttribute(c.Name, c.Friendly, c.Format, c.Values)
+		info.SetCustomAttribute(c.Name, c.Friendly, c.Format, append([]string(nil), c.Values...)) // a copy: the library must not be able to alter the record the oracle compares with
 	}
 }
 func (s *Storage) SetUserinfoWithUserID(ctx context.Context, applicationID string, userinfo models.AttributeSetter, userID string, attributes []int) error {
